@@ -181,3 +181,133 @@ ASSUMPTIONS = [
 NOT_COVERED = ["fixed-form Fortran (the code has no support)", "the composition over whole files and conditional selection: bounded (native/C17.py)"]
 EXPLANATION = ("Per-step transition-table conformance of fortran_cleaner.process for every character and every stack shape; whole-file "
                "classification compared with a reference on all texts of <= 6/8 characters (bounded).")
+
+
+# ================================================================ fortran_file_source: one line of the C pass
+# The body of its `while True` loop as a unit.  A preprocessor directive flushes the pending (possibly continued)
+# statement text BEFORE the directive is handed on, so that unconditional lines never end up inside the conditional
+# they precede; other lines go through the Fortran cleaner and close the logical line unless it continues.
+from pyvc.fsmodel import VHandle      # noqa: E402
+
+SRCLINE = Abstract("CLine", attrs={"category": STR, "current_physical_end": INT, "flushed_line": STR,
+                                    "lines": SeqOf(INT), "local_sloc": INT})
+
+
+def _walker_next(ex, st, recv, pos, kw, node):
+    v = SRCLINE.fresh(ex.ctx, "src_c_line")
+    s2 = st.fork()
+    return [(st, v), (s2, Exc("StopIteration", node.lineno))]
+
+
+WALKER = Abstract("CWalker", methods={"__next__": _walker_next})
+
+
+def _call(name, havoc_category=False, result=None):
+    def h(ex, st, env, node):
+        args = tuple(v for k, v in env.items() if k != "self")
+        st.ghost["calls"] = st.ghost.get("calls", ()) + ((name, args),)
+        if havoc_category:
+            st.heap[env["self"].oid].fields["category"] = STR.fresh(ex.ctx, "logical_category")
+            st.ghost["category_after_update"] = st.heap[env["self"].oid].fields["category"]
+        return [(st, result.fresh(ex.ctx, name) if result is not None else VNone())]
+    return h
+
+
+def _f_process(ex, st, env, node):
+    st.ghost["calls"] = st.ghost.get("calls", ()) + (("process", (env["lineiter"],)),)
+    new = SeqOf(STR).fresh(ex.ctx, "fstate_after")
+    st.assume(new.n >= 1)
+    st.heap[st.heap[env["self"].oid].fields["state"].oid].val = new
+    return [(st, VNone())]
+
+
+PHYSF = Abstract("PhysLineF", methods={"__init__": C05._rec("phys_init"), "category": C05._category_rec})
+ff = contract("codebasin.file_source:fortran_file_source@loop0", props=["C17"])
+ff.param("c_walker", WALKER).param("current_physical_line", PHYSF)
+ff.param("curr_line", ObjSpec("line_info", {"category": STR, "current_physical_start": Opt(INT)}))
+ff.param("cleaner", ObjSpec("fortran_cleaner", {"state": CellOf(SeqOf(STR))}))
+ff.param("current_physical_start", Opt(INT)).param("total_sloc", INT)
+ff.modifies = ["cleaner", "cleaner.state", "curr_line"]
+ff.opaque = {"codebasin.file_source:fortran_cleaner.process": _f_process,
+             "codebasin.file_source:line_info.physical_update": _call("physical_update", havoc_category=True),
+             "codebasin.file_source:line_info.physical_reset": _call("physical_reset", result=INT),
+             "codebasin.file_source:line_info.add_physical_lines": _call("add_physical_lines"),
+             "codebasin.file_source:line_info.join": _call("join")}
+ff.may_raise = {"StopIteration"}
+
+
+def _ff_setup(ctx, st):
+    st.ghost["yield_cell"] = st.alloc(HeapObj("cell", val=VEmptySet()))
+    st.ghost["calls"] = ()
+
+
+ff.setup = _ff_setup
+
+
+@ff.requires
+def _(A):
+    return [("stack-non-empty", A.cleaner.state.n >= 1)]
+
+
+@ff.ensures
+def _(A, R):
+    calls = R.st.ghost.get("calls", ())
+    names = [c[0] for c in calls]
+    src = R.new.src_c_line if R.new.has("src_c_line") else None
+    if src is None:
+        return [("a line was fetched", z3.BoolVal(False))]
+    is_dir = SRCLINE.attr(src, "category").t == z3.StringVal("CPP_DIRECTIVE")
+    st_after = R.new.cleaner.state
+    continues = st_after.arr[st_after.n - 1] == z3.StringVal("CONTINUING_FROM_SOL")
+    cat_upd = R.st.ghost.get("category_after_update")
+    nonblank = (cat_upd.t != z3.StringVal("BLANK")) if cat_upd is not None else z3.BoolVal(False)
+
+    def is_seq(want):
+        return names == want
+    yields = [a[0] for n_, a in calls if n_ == "yield"]
+    out = []
+    # directive: flush pending text first, then hand the directive on
+    dir_a = ["physical_update", "yield", "physical_reset", "yield"]
+    dir_b = ["physical_update", "physical_reset", "yield"]
+    ok_dir = is_seq(dir_a) or is_seq(dir_b)
+    out.append(("directive: the pending statement is closed (and yielded if non-blank) BEFORE the directive is yielded",
+                z3.Implies(is_dir, z3.BoolVal(ok_dir))))
+    if ok_dir:
+        last = yields[-1]
+        out.append(("directive: the directive itself is yielded last, unchanged",
+                    z3.Implies(is_dir, z3.BoolVal(isinstance(last, VAtom) and last.t.eq(src.t)))))
+        out.append(("directive: the pending statement is yielded iff it is not BLANK",
+                    z3.Implies(is_dir, z3.BoolVal(len(yields) == 2) == nonblank)))
+    # ordinary line
+    ord_cont = [["phys_init", "process", "category", "join"], ["phys_init", "process", "category", "add_physical_lines", "join"]]
+    ord_end = [x + ["physical_update", "physical_reset"] for x in ord_cont] + [x + ["physical_update", "yield", "physical_reset"] for x in ord_cont]
+    out.append(("statement line that continues: cleaned, recorded if non-blank, joined - the logical line stays open",
+                z3.Implies(z3.And(z3.Not(is_dir), continues), z3.BoolVal(names in ord_cont))))
+    out.append(("statement line that ends the statement: cleaned, recorded, joined, logical line closed and yielded iff non-blank",
+                z3.Implies(z3.And(z3.Not(is_dir), z3.Not(continues)), z3.BoolVal(names in ord_end))))
+    if names in ord_end:
+        out.append(("statement: yielded iff the logical line is not BLANK",
+                    z3.Implies(z3.And(z3.Not(is_dir), z3.Not(continues)), z3.BoolVal("yield" in names) == nonblank)))
+    for n_, a in calls:
+        if n_ == "add_physical_lines":
+            cat = [x for c_, x in calls if c_ == "category"]
+            out.append(("the C pass's physical lines are recorded iff the cleaned line is not BLANK",
+                        z3.And(ops.deref(R.st, a[0]).eq(SRCLINE.attr(src, "lines")),
+                               cat[0][0].t != z3.StringVal("BLANK")) if cat else z3.BoolVal(False)))
+        if n_ == "physical_update":
+            out.append(("the logical line ends where the C pass's line ends",
+                        ops.deref(R.st, a[0]).t == SRCLINE.attr(src, "current_physical_end").t))
+        if n_ == "process":
+            h = a[0]
+            okh = isinstance(h, VHandle) and h.tag == "islice"
+            out.append(("the Fortran cleaner sees the whole text of the C pass's line",
+                        z3.And(ops.deref(R.st, h.payload[0]).t == SRCLINE.attr(src, "flushed_line").t,
+                               ops.deref(R.st, h.payload[1]).t == 0,
+                               ops.deref(R.st, h.payload[2]).t == z3.Length(SRCLINE.attr(src, "flushed_line").t)) if okh else z3.BoolVal(False)))
+    if "add_physical_lines" not in names and "category" in names:
+        cat = [x for c_, x in calls if c_ == "category"][0][0]
+        out.append(("a BLANK cleaned line is not recorded", cat.t == z3.StringVal("BLANK")))
+    return out
+
+
+UNITS = UNITS + ["codebasin.file_source:fortran_file_source@loop0"]
